@@ -366,6 +366,8 @@ func (r *Renderer) stmt(b *strings.Builder, s Stmt, ind string) {
 
 func DurText(d time.Duration) string {
 	switch {
+	case d%time.Second != 0:
+		return d.String()
 	case d%time.Hour == 0:
 		return fmt.Sprintf("%dh", d/time.Hour)
 	case d%time.Minute == 0:
